@@ -10,6 +10,7 @@
 package c08
 
 import (
+	"bytes"
 	"fmt"
 	"math/rand"
 	"os"
@@ -74,13 +75,13 @@ func (w *worker) close() {
 
 type prog struct {
 	reportedInternal, reportedHeadPart bool // once per program
-	c   *ev.Ctx
-	w   *worker
-	id  string
-	cfg cfgT
-	r   *rand.Rand
-	env *fx.Env
-	cl  *s3c.Client
+	c                                  *ev.Ctx
+	w                                  *worker
+	id                                 string
+	cfg                                cfgT
+	r                                  *rand.Rand
+	env                                *fx.Env
+	cl                                 *s3c.Client
 
 	bucket   string
 	keys     []string
@@ -399,6 +400,8 @@ func (p *prog) randomStep() {
 		add(13, func() { p.opComplete(pick()) })
 		add(3, func() { p.opAbort(pick()) })
 		add(2, func() { p.opForeignKey(pick()) })
+		add(2, func() { p.opWrappedPartNumber(pick()) })
+		add(1, func() { p.opEmptyUploadID(pick()) })
 	}
 	add(9, func() { p.opListUploads() })
 	add(8, func() { p.opObserve() })
@@ -628,6 +631,59 @@ func (p *prog) opRefusedReupload(u *upload, n int) {
 	}
 	p.c.Distinct("op|upload-part|refused-re-upload:" + kind)
 	p.afterMutation(u, "refused-re-upload-part")
+}
+
+// opWrappedPartNumber: a part number far outside 1..10000 that equals an existing (or ordinary) part number modulo
+// 2^32 / 2^16. It names no part of the upload: the request is refused and every part stays what it was.
+func (p *prog) opWrappedPartNumber(u *upload) {
+	n := 1
+	if ns := u.numbers(); len(ns) > 0 {
+		n = ns[p.r.Intn(len(ns))]
+	}
+	wide := []int64{int64(n) + 1<<32, int64(n) + 3<<32, int64(n) - 1<<32, int64(n) + 1<<16, int64(n) + 1<<31}[p.r.Intn(5)]
+	body := p.bytes(1 + p.r.Intn(3000))
+	copyForm := p.r.Intn(4) == 0
+	rq := &s3c.Req{Method: "PUT", Path: s3c.ObjPath(p.bucket, u.key), Query: s3c.Q("partNumber", fmt.Sprint(wide), "uploadId", u.id), Body: body}
+	if copyForm && p.putPlain(p.keys[len(p.keys)-1], 1+p.r.Intn(2000)) {
+		rq.Body = nil
+		rq.Header = s3c.H{{"X-Amz-Copy-Source", p.bucket + "/" + p.keys[len(p.keys)-1]}}
+	} else {
+		copyForm = false
+	}
+	p.kinds["wide-part-number"] = true
+	p.logf("upload-part U%d partNumber=%d (no part number; equals %d in a narrower integer) copy=%v", u.n, wide, n, copyForm)
+	resp := p.req("upload-part", false, rq)
+	if resp.Err != nil {
+		return
+	}
+	p.result("%s", resp)
+	if resp.OK() && !bytes.Contains(resp.Body, []byte("<Error>")) {
+		p.viol("upload-part:number-outside-the-range-accepted", map[string]any{"part_number_sent": wide, "answer": resp.String(), "equals_in_32_bits": n, "copy_form": copyForm})
+		p.dead = true
+		return
+	}
+	p.c.Distinct(fmt.Sprintf("op|upload-part|wide-number|%d|copy=%v", resp.Status, copyForm))
+	p.afterMutation(u, "refused-wide-part-number")
+}
+
+// opEmptyUploadID: a part upload and a part listing for the key of an open upload whose uploadId argument is present
+// but empty. They name no upload: acknowledged part data would belong to none, every upload stays what it was.
+func (p *prog) opEmptyUploadID(u *upload) {
+	n := partNumbers[p.r.Intn(len(partNumbers))]
+	body := p.bytes(1 + p.r.Intn(3000))
+	p.kinds["empty-upload-id"] = true
+	p.logf("upload-part key of U%d n=%d uploadId= (empty)", u.n, n)
+	resp := p.req("upload-part", false, &s3c.Req{Method: "PUT", Path: s3c.ObjPath(p.bucket, u.key), Query: s3c.Q("partNumber", fmt.Sprint(n), "uploadId", ""), Body: body})
+	if resp.Err != nil {
+		return
+	}
+	p.result("%s", resp)
+	if resp.OK() {
+		p.viol("upload-part:empty-upload-id-acknowledged", map[string]any{"part_number": n, "answer": resp.String(), "etag": resp.Header.Get("Etag")})
+	} else {
+		p.c.Distinct(fmt.Sprintf("op|upload-part|empty-upload-id|%d", resp.Status))
+	}
+	p.afterMutation(u, "refused-empty-upload-id")
 }
 
 func (p *prog) setPart(u *upload, n int, body []byte) *part {
